@@ -444,16 +444,15 @@ mod amqp_url {
     pub fn open(url: &str, tuning: ConnectionTuning, allow_insecure: bool) -> Result<Connection> {
         let mut url = Url::parse(url).context(UrlParseSnafu)?;
         let scheme = populate_host_and_port(&mut url)?;
+        // An insecure URL is refused as such by the secure-only entry points, whatever else
+        // may be wrong with it.
+        if scheme == Scheme::Amqp && !allow_insecure {
+            return InsecureUrlSnafu { url }.fail();
+        }
         let options = decode(&url)?;
 
         match scheme {
-            Scheme::Amqp => {
-                if allow_insecure {
-                    open_amqp(url, options, tuning)
-                } else {
-                    InsecureUrlSnafu { url }.fail()
-                }
-            }
+            Scheme::Amqp => open_amqp(url, options, tuning),
             Scheme::Amqps => open_amqps(url, options, tuning),
         }
     }
